@@ -184,17 +184,7 @@ theorem L_mkCat (a : Rx) : ∀ (b : Rx) (w : List Letter), L (mkCat a b) w ↔ L
     constructor
     · intro h; exact ⟨[], w, rfl, rfl, h⟩
     · rintro ⟨u, v, rfl, rfl, h⟩; simpa using h
-  | alt x y ihx ihy =>
-    intro b w
-    simp only [mkCat, L_mkAlt, ihx, ihy]
-    simp only [L]
-    constructor
-    · rintro (⟨u, v, rfl, h1, h2⟩ | ⟨u, v, rfl, h1, h2⟩)
-      · exact ⟨u, v, rfl, Or.inl h1, h2⟩
-      · exact ⟨u, v, rfl, Or.inr h1, h2⟩
-    · rintro ⟨u, v, rfl, h1 | h1, h2⟩
-      · exact Or.inl ⟨u, v, rfl, h1, h2⟩
-      · exact Or.inr ⟨u, v, rfl, h1, h2⟩
+  | alt x y _ _ => intro b w; simp only [mkCat]; exact L_mkCat_base _ b w
   | cat x y ihx ihy =>
     intro b w
     simp only [mkCat]
